@@ -5,6 +5,11 @@ ROOT = os.path.dirname(os.path.dirname(os.path.abspath(__file__)))
 BASE_OFF = "cd /repo && env -u BUIDL_VERIF_TRACE /venv/bin/python -m pytest -ra -q -p no:cacheprovider --timeout=900 --continue-on-collection-errors"
 
 CLAIMED = {
+ "C19": dict(
+   text="TLC explores the envelope parser as a state machine over every stream an adversary derives from honest envelopes of a small universe (each truncation, each single-byte corruption, trailing bytes, inflated length) and checks round trip and rejection; recorded serialize/parse calls of envelopes (all networks, commands of 0..12 bytes, every truncation point and single-byte corruption of sampled envelopes), compact-size and fixed-width integers across every width boundary, block headers and each fixed-layout message are decided by TLC evaluating the protocol layouts in P2P.tla.",
+   design="3/C19",
+   note="Trusted: TLC, P2P.tla as transcription of the protocol layouts, hashlib for hash256 rows. Payload contents and field values are sampled at the quantifier's boundaries.",
+   technique="TLA+ parser state machine model-checked by TLC + TLC evaluation of recorded codec calls"),
  "C01": dict(
    text="On toy prime-order curves TLC enumerates every secret, nonce, digest and (r, s) pair, checks completeness, low-S and exact soundness (curve arithmetic = discrete-log formulation) and exports the complete sign/verify tables, which are replayed through the unmodified PrivateKey.sign / S256Point.verify running on the same toy group (module constants rebound). On secp256k1 recorded sign calls (boundary and random secrets/digests) are decided by TLC in the scalar model with big-number certificates, RFC 6979 is re-derived by TLC from certified HMAC rows, DER is checked at byte level, and every tuple of the mutation catalogue gets the verdict the equation and range rule define.",
    design="3/C01",
